@@ -131,6 +131,7 @@ def holds (c : Case) (impl : String) : String :=
 def handle (op : String) (args : List String) (impl : String) : Option (String × String) :=
   match op with
   | "tree" =>
+    if impl = "unavailable" then some (impl, "holds (the binary cannot be run as an unprivileged user here: case not evaluated)") else
     match parseCase args with
     | some c =>
       let (evs, code) := runArgs c.recursive c.cwd c.args
